@@ -172,6 +172,112 @@ def opsUn (mode : Mode) (m : String) (addr : Nat) (d : GReg) : Res (List Op) := 
       pure [← regSet mode d e]
   | _ => .err .other
 
+/-! ### memory operands (`mode.rs`: `operand_value`, `operand_load`, `operand_store`) -/
+
+/-- `Scalar::temp(instruction.address, bits)`: the temporary of `operand_load` (no sub-index) -/
+def ltemp (addr bits : Nat) : Scalar :=
+  scalar ("temp_0x" ++ String.ofList ((Nat.toDigits 16 addr).map Char.toUpper)) bits
+
+/-- `get_register_expression` for an address register of the mode's address width -/
+def aregE (mode : Mode) (addr len : Nat) : AReg → Res Expr
+  | .ip => if mode = .amd64 then .ok (Expr.ec (addr + len) 64) else .err .other
+  | .gpr r => if r.bits = mode.bits ∧ r.off = 0 then regGet mode r else .err .other
+
+/-- `operand_value` of a memory operand without segment override whose address registers have the mode's width
+    (`disp` is capstone's i64 displacement as a u64) -/
+def memAddr (mode : Mode) (addr len : Nat) (base index : Option AReg) (scale disp : Nat) : Res Expr := do
+  let fb := mode.bits
+  let b : Option Expr ← match base with
+    | some r => do pure (some (← aregE mode addr len r))
+    | none => pure none
+  let i : Option Expr ← match index with
+    | some r => do pure (some (← aregE mode addr len r))
+    | none => pure none
+  let si : Option Expr ← match i with
+    | some ix => do pure (some (← Expr.mkBin .mul ix (Expr.ec scale fb)))
+    | none => pure none
+  let op : Option Expr ← match b, si with
+    | some b, some s => do pure (some (← Expr.mkBin .add b s))
+    | some b, none => pure (some b)
+    | none, s => pure s
+  match op with
+  | some o =>
+    if disp = 0 then pure o
+    else if disp < 2 ^ 63 then Expr.mkBin .add o (Expr.ec disp fb)
+    else Expr.mkBin .sub o (Expr.ec (2 ^ 64 - disp) fb)
+  | none => pure (Expr.ec disp fb)
+
+/-- the body shared by the two-operand builders, for a destination whose value is `lhs` and which is written back by `wb` -/
+def opsCore (m : String) (addr : Nat) (lhs rhs : Expr) (wb : Expr → Res Op) : Res (List Op) := do
+  let t := temp addr 0 lhs.bits
+  let te : Expr := .scalar t
+  let c0 : Op := .assign (scalar "CF" 1) (Expr.ec 0 1)
+  let o0 : Op := .assign (scalar "OF" 1) (Expr.ec 0 1)
+  match m with
+  | "add" => do
+      let r ← Expr.mkBin .add lhs rhs
+      pure [.assign t r, .assign (scalar "ZF" 1) (← zfExpr te), .assign (scalar "SF" 1) (← sfExpr te),
+            .assign (scalar "OF" 1) (← ofExpr te lhs rhs false), .assign (scalar "CF" 1) (← cfAddExpr te lhs),
+            ← wb te]
+  | "sub" => do
+      let r ← Expr.mkBin .sub lhs rhs
+      pure [.assign t r, .assign (scalar "ZF" 1) (← zfExpr te), .assign (scalar "SF" 1) (← sfExpr te),
+            .assign (scalar "OF" 1) (← ofExpr te lhs rhs true), .assign (scalar "CF" 1) (← cfSubExpr te lhs),
+            ← wb te]
+  | "cmp" => do
+      let e ← Expr.mkBin .sub lhs rhs
+      pure [.assign (scalar "ZF" 1) (← zfExpr e), .assign (scalar "SF" 1) (← sfExpr e),
+            .assign (scalar "OF" 1) (← ofExpr e lhs rhs true), .assign (scalar "CF" 1) (← cfSubExpr e lhs)]
+  | "and" | "or" | "xor" => do
+      let op := if m = "and" then BinOp.and else if m = "or" then BinOp.or else BinOp.xor
+      let r ← if m = "xor" ∧ lhs = rhs then pure (Expr.ec 0 lhs.bits) else Expr.mkBin op lhs rhs
+      pure [.assign t r, .assign (scalar "ZF" 1) (← zfExpr te), .assign (scalar "SF" 1) (← sfExpr te), c0, o0,
+            ← wb te]
+  | _ => .err .other
+
+/-- a memory operand as the mirror takes it -/
+structure MemOp where
+  bytes : Nat
+  base : Option AReg
+  index : Option AReg
+  scale : Nat
+  disp : Nat
+  deriving DecidableEq, Repr
+
+/-- `op r, [mem]`: the source is loaded into `ltemp` first -/
+def opsRM (mode : Mode) (m : String) (addr len : Nat) (d : GReg) (mo : MemOp) : Res (List Op) := do
+  let a ← memAddr mode addr len mo.base mo.index mo.scale mo.disp
+  let lt := ltemp addr (8 * mo.bytes)
+  if 8 * mo.bytes = d.bits then do
+    let ops ← opsDS mode m addr d (.scalar lt)
+    pure (.load lt a :: ops)
+  else .err .other
+
+/-- `op [mem], src` with `src` a register or an immediate of the operand's width (`rhs` its expression):
+    `mov` stores; the others load the destination into `ltemp`, compute, and store the result back -/
+def opsMS (mode : Mode) (m : String) (addr len : Nat) (mo : MemOp) (rhs : Expr) : Res (List Op) := do
+  let a ← memAddr mode addr len mo.base mo.index mo.scale mo.disp
+  let lt := ltemp addr (8 * mo.bytes)
+  if m = "mov" then pure [.store a rhs]
+  else do
+    let ops ← opsCore m addr (.scalar lt) rhs (fun x => pure (.store a x))
+    pure (.load lt a :: ops)
+
+def opsMR (mode : Mode) (m : String) (addr len : Nat) (mo : MemOp) (s : GReg) : Res (List Op) := do
+  if 8 * mo.bytes = s.bits then do
+    let rhs ← regGet mode s
+    opsMS mode m addr len mo rhs
+  else .err .other
+
+def opsMI (mode : Mode) (m : String) (addr len : Nat) (mo : MemOp) (v bytes : Nat) : Res (List Op) :=
+  if bytes = mo.bytes then opsMS mode m addr len mo (Expr.ec v (8 * bytes)) else .err .other
+
+/-- `lea r, [mem]`: the address, truncated to the destination -/
+def opsLea (mode : Mode) (addr len : Nat) (d : GReg) (mo : MemOp) : Res (List Op) := do
+  let a ← memAddr mode addr len mo.base mo.index mo.scale mo.disp
+  let src ← if a.bits > d.bits then Expr.mkExt .trun d.bits a else pure a
+  pure [← regSet mode d src]
+
 def mkInstrs (addr : Nat) : Nat → List Op → List Instr
   | _, [] => []
   | i, op :: rest => { index := i, addr := some addr, op := op } :: mkInstrs addr (i + 1) rest
@@ -201,6 +307,16 @@ def liftUn (mode : Mode) (m : String) (addr len : Nat) (d : GReg) : Res BTR := d
 def aluMnemonics : List String := ["mov", "add", "sub", "cmp", "and", "or", "xor"]
 def unMnemonics : List String := ["inc", "dec", "neg", "not"]
 
+/-- the memory operand of the mirrored classes: no segment override, address size = the mode's -/
+def memOp? (i : Ins) : Opnd → Option MemOp
+  | .mem bytes none base index scale disp =>
+    if 8 * i.asz = i.mode.bits then some { bytes := bytes, base := base, index := index, scale := scale, disp := disp } else none
+  | _ => none
+
+def wrap (addr len : Nat) (ops : Res (List Op)) : Res BTR := do
+  let o ← ops
+  pure (straight addr len o)
+
 /-- the mirror's output for an instruction of the mirrored classes (`none`: outside) -/
 def liftIns (i : Ins) : Option (Res BTR) :=
   if i.lock then none
@@ -211,6 +327,21 @@ def liftIns (i : Ins) : Option (Res BTR) :=
     if aluMnemonics.contains i.mnem ∧ 8 * bytes = d.bits then some (liftRI i.mode i.mnem i.addr i.len d v bytes) else none
   | [.reg d] =>
     if unMnemonics.contains i.mnem then some (liftUn i.mode i.mnem i.addr i.len d) else none
+  | [.reg d, m@(.mem ..)] =>
+    match memOp? i m with
+    | some mo =>
+      if i.mnem = "lea" then some (wrap i.addr i.len (opsLea i.mode i.addr i.len d mo))
+      else if aluMnemonics.contains i.mnem ∧ 8 * mo.bytes = d.bits then some (wrap i.addr i.len (opsRM i.mode i.mnem i.addr i.len d mo))
+      else none
+    | none => none
+  | [m@(.mem ..), .reg s] =>
+    match memOp? i m with
+    | some mo => if aluMnemonics.contains i.mnem ∧ 8 * mo.bytes = s.bits then some (wrap i.addr i.len (opsMR i.mode i.mnem i.addr i.len mo s)) else none
+    | none => none
+  | [m@(.mem ..), .imm v bytes] =>
+    match memOp? i m with
+    | some mo => if aluMnemonics.contains i.mnem ∧ bytes = mo.bytes then some (wrap i.addr i.len (opsMI i.mode i.mnem i.addr i.len mo v bytes)) else none
+    | none => none
   | _ => none
 
 end X86Lift
